@@ -235,6 +235,8 @@ pub fn unwatch_all(sender: &Sender<String>, db: &Database) -> Response {
         .write()
         .expect("Error on db.watchers.map.lock")
         .clone();
+    #[cfg(nundb_verif)]
+    crate::verif_hooks::record_key_order(watchers.keys().cloned().collect());
     for (key, _val) in watchers.iter() {
         unwatch_key(&key, &sender, &db);
     }
